@@ -8,8 +8,10 @@ Property theorems only; lemmas are in `ZvbiModel/Xds/SepRound3.lean`, `DecLemmas
 Models: `Frame.feedFrame` = `vbi_xds_demux_feed_frame` (xds_demux.c), `Sep.*` = caption.c separator
 (Model.lean), `Dec.step` = one call of `xds_decoder` (Dec.lean; complete: every packet type, every
 field, every event), `Dec.sysRun` = line 284 of `vbi_decode_caption` with `xds_decoder` behind it.
-The three constants `Dec.capLangClearedFirst`, `Dec.flushSendsOldAspect`, `Dec.aspectAlwaysCurrent`
-describe the control flow of the current tree (checked against the source on every run).
+The four constants `Dec.capLangClearedFirst`, `Dec.aspectAlwaysCurrent`, `Dec.flushSendsOldAspect`,
+`Dec.flushAspectAnyClass` describe the control flow of the current tree; `translate/gen_xdsdec.py` reads
+them from src/caption.c on every run (`Generated/XdsDecFlags.lean`), every theorem below holds for either
+value of each.
 -/
 namespace Zvbi.Props.C09Sep
 open Zvbi.Xds Zvbi.Hamm Zvbi.Gen.Xds
@@ -325,17 +327,50 @@ theorem prog_info_capsvc_never_announced_counterexample :
     (Dec.run Dec.init witnessCapsvc).1.cyc0 = (if Dec.capLangClearedFirst then [7, 7, 7] else []) := by
   decide +kernel
 
+/-- flush_prog_info and ASPECT, every state, both source shapes: the only ASPECT event a programme id
+    (type 1) or programme name (type 3) packet can raise is the one of `flush_prog_info`.  It is raised
+    only if a known aspect ratio of that programme was erased, and - `flushAspectAnyClass = false`, the
+    repaired shape - only for the current programme (class 0): never for the future one, which is not on
+    screen.  It carries the stored value, unknown (`flushSendsOldAspect = false`, repaired), resp. the
+    value that was just erased (`true`, the shape before fixes/C09-flush-aspect.diff). -/
+theorem dec_flush_aspect_event (v : Dec.Info) (cls typ : Nat) (d : List Nat) (nx : Nat) (ht : typ = 1 ∨ typ = 3)
+    (a : Dec.Aspect) (ha : Dec.Ev.aspect a ∈ (Dec.feed v cls typ d nx).2.evs) :
+    (v.pi cls).aspect ≠ {} ∧ (Dec.flushAspectAnyClass = true ∨ cls = 0) ∧
+    a = (if Dec.flushSendsOldAspect then (v.pi cls).aspect else {}) :=
+  Dec.feed_flush_events v cls typ d nx ht a ha
+
+/-- and `flush_prog_info` itself: exactly that event, and the stored aspect ratio is unknown afterwards -/
+theorem dec_flush_events (v : Dec.Info) (cls : Nat) :
+    (Dec.flush v cls).2 =
+      (if (v.pi cls).aspect ≠ {} ∧ (Dec.flushAspectAnyClass = true ∨ cls = 0) then
+        [Dec.Ev.aspect (if Dec.flushSendsOldAspect then (v.pi cls).aspect else {})] else []) ∧
+    ((Dec.flush v cls).1.pi cls).aspect = {} :=
+  Dec.flush_events v cls
+
 /-- aspect ratio (twice), then a programme id -/
 def witnessFlush : List (Pkt × Nat) :=
   [(⟨0, 9, [0x45, 0x46, 0x41]⟩, 0), (⟨0, 9, [0x45, 0x46, 0x41]⟩, 0), (⟨0, 1, [0x45, 0x46, 0x47, 0x43]⟩, 0)]
 
-/-- prog_info_flush_announces_erased_aspect_counterexample: the programme id flushes the programme
-    information; the ASPECT event it sends carries the aspect ratio that was just erased (current tree)
-    instead of the value now stored (unknown). -/
+/-- the same for the future programme -/
+def witnessFlushFuture : List (Pkt × Nat) :=
+  [(⟨1, 9, [0x45, 0x46, 0x41]⟩, 0), (⟨1, 9, [0x45, 0x46, 0x41]⟩, 0), (⟨1, 1, [0x45, 0x46, 0x47, 0x43]⟩, 0)]
+
+/-- prog_info_flush_announces_erased_aspect_counterexample (corpus/C09/81, 83): the programme id flushes
+    the programme information; before the repair the ASPECT event carries the aspect ratio that was just
+    erased instead of the value now stored (unknown), and - once the future programme has an aspect ratio
+    of its own (201beae) - it is also raised when the *future* programme is flushed; repaired: the stored
+    value, and nothing for the future programme.  Decided on both streams, stated for every combination
+    of the constants. -/
 theorem prog_info_flush_announces_erased_aspect_counterexample :
     ((Dec.run Dec.init witnessFlush).2.getD 2 {}).evs =
       [Dec.Ev.aspect (if Dec.flushSendsOldAspect then { first := 27, last := 256, ratio := 2 } else {})] ∧
-    (Dec.run Dec.init witnessFlush).1.pi0.aspect = {} := by
+    (Dec.run Dec.init witnessFlush).1.pi0.aspect = {} ∧
+    ((Dec.run Dec.init witnessFlushFuture).2.getD 2 {}).evs =
+      (if Dec.aspectAlwaysCurrent then []
+       else if Dec.flushAspectAnyClass then
+         [Dec.Ev.aspect (if Dec.flushSendsOldAspect then { first := 27, last := 256, ratio := 2 } else {})]
+       else []) ∧
+    (Dec.run Dec.init witnessFlushFuture).1.pi1.aspect = {} := by
   decide +kernel
 
 /-- an aspect ratio packet of the *future* class -/
